@@ -296,6 +296,31 @@ def work(args):
                         "r_en": build_real(full_b, B, "en"), "r_fr": build_real(full_b, B, "fr"),
                         "r_buildA": build_real(full_b, A, B),
                         "inner_own": build_real(strip_lang(ib), A, A), "inner_exp_under_B": build_real(ib, B, B)})
+        # words of language A given DIRECTLY to a noun phrase created in language B (explicitly, or because B was current and
+        # only the words were tagged): agreement between the words (gender of a numeral or determiner, number of the noun)
+        # must be that of the all-A phrase.  Only agreement: elision, euphony and adjective placement are done by the
+        # enclosing phrase's own language and are not required here.
+        if rng.random() < 0.2:
+            LA = ',"%s"' % A
+            if A == "fr":
+                nf = exprgen.q(rng.choice(["souris", "maison", "table", "fille", "pomme", "voiture"]))
+                nm = exprgen.q(rng.choice(["chat", "garçon", "livre", "cheval", "journal"]))
+                noun = rng.choice([nf, nf, nm])
+                tpls = ['NP(D("un"%s),N(%s%s)%%s)' % (LA, noun, LA), 'NP(NO(%d%s).nat(),N(%s%s)%%s)' % (rng.choice([1, 1, -1, 2, 21]), LA, noun, LA),
+                        'NP(D("le"%s),NO(1%s).dOpt({"ord":True}),N(%s%s)%%s)' % (LA, LA, noun, LA), 'NP(D("le"%s),N(%s%s)%%s).n("p")' % (LA, noun, LA),
+                        'NP(NO(3%s).nat(),A("petit"%s),N(%s%s)%%s)' % (LA, LA, noun, LA), 'NP(D("mon"%s).pe(%d),N(%s%s)%%s)' % (LA, rng.choice([1, 2, 3]), noun, LA)]
+            else:
+                noun = exprgen.q(rng.choice(["child", "woman", "mouse", "cat", "box"]))
+                tpls = ['NP(NO(%d%s).nat(),N(%s%s)%%s)' % (rng.choice([1, 2, 3, 21]), LA, noun, LA), 'NP(D("this"%s),N(%s%s)%%s).n("p")' % (LA, noun, LA),
+                        'NP(D("my"%s).pe(3).g("f"),N(%s%s)%%s)' % (LA, noun, LA), 'NP(D("the"%s),N(%s%s)%%s).n("p")' % (LA, noun, LA)]
+            t = rng.choice(tpls)
+            own = t % (',lang="%s"' % A)
+            mixed = t % (',lang="%s"' % B)
+            untagged = t % ""
+            out.append({"A": A, "B": B, "kind": "NP(words-of-A-in-phrase-of-B)", "pos": "alone", "src": mixed, "inner": own,
+                        "r_en": build_real(mixed, B, "en"), "r_fr": build_real(mixed, B, "fr"), "r_buildA": build_real(mixed, A, B),
+                        "inner_own": ["", False], "inner_exp_under_B": ["", False],
+                        "own_text": build_real(own, A, A), "untagged_under_B": build_real(untagged, B, B)})
         # tonic pronouns after a preposition, pronominalized (the clitic is looked up at realization time)
         if rng.random() < 0.08:
             pr = {"fr": ["lui", "elle", "eux", "moi", "toi"], "en": ["me", "him", "them"]}[A]
@@ -363,6 +388,13 @@ def run(ctx, deep=False):
             elif r["r_buildA"] != r["r_en"] and not r["r_en"][0].startswith("EXC"):
                 ctx.fail("construction-depends-on-current-language:%s-in-%s:%s@%s" % (r["A"], r["B"], r["kind"], r["pos"]), inp,
                          {"built_under_B": r["r_en"], "built_under_A": r["r_buildA"]})
+            if "own_text" in r and not r["own_text"][0].startswith("EXC"):
+                for k in ("r_en", "untagged_under_B"):
+                    if r[k] != r["own_text"]:
+                        ctx.fail("agreement-between-words-of-%s-lost-in-a-phrase-of-%s" % (r["A"], r["B"]), inp,
+                                 {"phrase_created_in_its_words_language": r["own_text"], "phrase_created_in_the_other_language": r[k],
+                                  "how": "explicit lang= on the phrase" if k == "r_en" else "no lang on the phrase, other language current"})
+                        break
             if r["inner_own"] != r["inner_exp_under_B"]:
                 ctx.fail("explicit-lang-differs-from-creation-under-that-language:%s:%s" % (r["A"], r["kind"]),
                          {"src": r["inner"], "A": r["A"]}, {"no_lang_under_A": r["inner_own"], "explicit_under_B": r["inner_exp_under_B"]})
